@@ -75,5 +75,5 @@ Example C17_witness :
   forallb (fun e => negb (is_ws_ev e)) evs = true /\
   handed s = [[1;2;3;4]; [11;12]; [13]]%N /\ dropped s = [[5;6;7;8;9;10]; []; []]%N /\ acc s = [14]%N /\
   map got (cons s) = [[[1;2;3;4]; [11;12]]; [[1;2;3;4]]]%N /\
-  map got (cons (run true 4 (init [2; 2]) evs)) = [[[13;2;3;4]; [13;12]]; [[13;2;3;4]]]%N.
+  map got (cons (run true 4 (init [2; 2]) evs)) = [[[13;12;3;4]; [13;12]]; [[13;12;3;4]]]%N.
 Proof. vm_compute. repeat split. Qed.
